@@ -231,6 +231,7 @@ type ctl interface {
 	SearchItemRaw(ctx context.Context, id string) ([]byte, error)
 	SetReadItemErr(err error)
 	SetQueryItemsErr(b bool)
+	SetEmptyPages(on bool)
 }
 
 type vaultUnderTest struct {
@@ -240,7 +241,10 @@ type vaultUnderTest struct {
 	cleanup func()
 }
 
-func openVault(backend string, set *hplug.Set, scratch string) (*vaultUnderTest, error) {
+// pageSize / emptyPages: cosmosdb only. Query results are handed out in pages of at most pageSize items
+// (0 = one page) and, when emptyPages, with an empty page that has a continuation before every non-empty
+// page after the first -- what the real service may do.
+func openVault(backend string, set *hplug.Set, scratch string, pageSize int, emptyPages bool) (*vaultUnderTest, error) {
 	ctx := context.Background()
 	switch backend {
 	case "sqlite-mem":
@@ -260,7 +264,8 @@ func openVault(backend string, set *hplug.Set, scratch string) (*vaultUnderTest,
 		}
 		return &vaultUnderTest{v: v, cleanup: func() { v.Close(ctx); os.RemoveAll(dir) }}, nil
 	case "cosmos":
-		v, c := cosmosdb.NewFakeVaultSwarm(set.Reg, swarmName)
+		v, c := cosmosdb.NewFakeVaultOpts(set.Reg, swarmName, pageSize)
+		c.SetEmptyPages(emptyPages)
 		return &vaultUnderTest{v: v, cosmos: true, ctl: c, cleanup: func() {}}, nil
 	}
 	return nil, fmt.Errorf("unknown backend %q", backend)
@@ -953,7 +958,11 @@ func runScenario(seed uint64, index int, tier string, scratch string) core.Case 
 	}
 	set := hplug.NewSet()
 	id := fmt.Sprintf("hist-%d", index)
-	vt, err := openVault(backend, set, scratch)
+	// cosmosdb paging: page sizes 0 (one page), 1, 2, 3; empty pages in half of the paged histories
+	g := index / 3
+	pageSize := (g + g/13) % 4
+	emptyPages := pageSize > 0 && (g/4+g/13)%2 == 0
+	vt, err := openVault(backend, set, scratch, pageSize, emptyPages)
 	if err != nil {
 		return core.Case{ID: id, Kind: backend, Note: "harness: cannot open vault: " + err.Error()}
 	}
@@ -1100,7 +1109,7 @@ func runScenario(seed uint64, index int, tier string, scratch string) core.Case 
 		Coq:        core.App("Build_case", be, core.N(uint64(sw)), core.List(terms)),
 		Nontrivial: liveN >= 2 && len(s.steps) > 10,
 		Hash:       core.Hash(hparts...),
-		Dist:       map[string]any{"backend": backend, "plans": nPlans, "live": liveN, "steps": len(s.steps), "hist": s.hist, "statuses": st, "tied_plans": ties},
+		Dist:       map[string]any{"paging": pagingLabel(vt.cosmos, pageSize, emptyPages), "backend": backend, "plans": nPlans, "live": liveN, "steps": len(s.steps), "hist": s.hist, "statuses": st, "tied_plans": ties},
 		Input:      map[string]any{"seed": seed, "index": index, "backend": backend, "plans": nPlans, "uuids": uuidStrings(s.uu)},
 		Observed:   s.steps,
 	}
@@ -1126,6 +1135,13 @@ func stateTimes(r *core.Rand, base int64, status int64) (int64, int64) {
 		start, end = zeroSubmit, zeroSubmit
 	}
 	return start, end
+}
+
+func pagingLabel(cosmos bool, pageSize int, emptyPages bool) string {
+	if !cosmos {
+		return "n/a (sqlite)"
+	}
+	return fmt.Sprintf("pageSize=%d emptyPages=%v", pageSize, emptyPages)
 }
 
 func uuidStrings(uu []uuid.UUID) []string {
